@@ -232,7 +232,7 @@ def unknown_name_stream(ctx, n):
         present = set(arch.modules)
         good = rng.choice(sorted(present))
         base = rng.choice(nodes)
-        bad = rng.choice([base + "x", base + ".zz", base[:-1] or "q", "rr." + base, base.upper() + "_", base + "." + base.split(".")[-1]])
+        bad = rng.choice([base + "x", base + ".zz", base[:-1] or "q", "rr." + base, base.upper() + "_", base + "." + base.split(".")[-1], base + ".{z}", "%s." + base, base + " "])
         if limit is not None:
             deep = [x for x in nodes if x.count(".") > limit]
             if deep and rng.random() < 0.5:
